@@ -257,6 +257,9 @@ static void applyAcl(Ctx* c, const Acl& a) {
   f << "# name,secret,level...\n";
   if (a.dsrc == "acl") f << "*,," << withSep(a.D, ';', ',') << "\n";
   f << "u,sE," << withSep(a.U, ';', ',') << "\n";
+  // the user v is listed twice: an earlier line with another secret and no levels, then the line that counts.  The
+  // earlier secret ("vold") must never open the levels of the later line.
+  f << "v,old,\n";
   f << "v,t2,*\n";
   c->w->newLoop(a.dsrc == "opt" ? withSep(a.D, ';', ',') : "", true, f.str());
 }
@@ -270,9 +273,9 @@ static bool inPollQueue(Ctx* c, Message* m) {
 }
 // authentication states: only "ok" authenticates.  The wrong secrets are unrelated to the right one (bad), a
 // proper prefix, an extension, a case variant, the empty string, and the secret of another user; crossv is the
-// other user's name with u's secret
+// other user's name with u's secret; vold the other user's name with the secret of its earlier, superseded ACL line
 static const char* AUTHS[] = {"none", "ok", "bad", "nosecret", "unknown"};
-static const char* AUTHS2[] = {"prefix", "ext", "case", "empty", "cross", "crossv"};
+static const char* AUTHS2[] = {"prefix", "ext", "case", "empty", "cross", "crossv", "vold"};
 static const char* FORMS[] = {"readname", "readcirc", "readforce", "readmaxage", "readhex", "readhexforce", "readpoll",
                               "writecirc", "writehex", "httpname", "httpcached", "httpmaxage", "httppoll",
                               "findname", "finddata", "findhex"};
@@ -300,6 +303,7 @@ static string authQuery(const string& auth) {
   if (auth == "empty") return "user=u&secret=";
   if (auth == "cross") return "user=u&secret=t2";
   if (auth == "crossv") return "user=v&secret=sE";
+  if (auth == "vold") return "user=v&secret=old";
   return "";
 }
 // performs the TCP authentication step; returns false if the observed user is not the expected one
@@ -316,6 +320,7 @@ static bool tcpAuth(Ctx* c, const string& auth, string* user, string* log) {
   else if (auth == "empty") line = "auth u \"\"";
   else if (auth == "cross") line = "auth u t2";
   else if (auth == "crossv") line = "auth v sE";
+  else if (auth == "vold") line = "auth v old";
   if (line.empty()) return true;
   Reply r = tcp(c->w, line, user);
   if (log) *log += "  > " + line + "\n  < " + esc(r.text) + "   (session user now \"" + *user + "\")\n";
